@@ -38,7 +38,7 @@ EVID = os.environ.get("VERIF_EVIDENCE_DIR") or os.path.join(VERIF, "evidence")
 REPLAYS = os.path.join(EVID, "replays")
 KNOWN = os.path.join(VERIF, "known_findings.json")
 
-RUN_TIMEOUT = int(os.environ.get("VERIF_RUN_TIMEOUT", "120"))
+RUN_TIMEOUT = int(os.environ.get("VERIF_RUN_TIMEOUT", "300"))
 
 
 class RunTimeout(BaseException):
